@@ -7,9 +7,9 @@ use vcore::num::{fixed_noise, EPS};
 use vcore::{json, Check, Outcome, Report, Tier, Value};
 
 type C = Complex<f64>;
-const FAMILIES: [&str; 16] = [
+const FAMILIES: [&str; 17] = [
     "equispaced[-2,2]", "equispaced[-1,1]", "chebyshev-like", "clustered-left", "clustered-centre", "asymmetric[0.3,2]", "geometric", "min-separation-0.2", "negative[-2,-0.2]", "mixed-gaps",
-    "complex-circle", "complex-spiral", "complex-line", "complex-grid", "complex-conjugates", "complex-near-real",
+    "complex-circle", "complex-spiral", "complex-line", "complex-grid", "complex-conjugates", "complex-near-real", "real-nodes-complex-type",
 ];
 fn nodes(fam: usize, n: usize) -> Option<Vec<C>> {
     let r = |x: f64| C::new(x, 0.0);
@@ -37,7 +37,8 @@ fn nodes(fam: usize, n: usize) -> Option<Vec<C>> {
             12 => C::new(-1.0 + 2.0 * u(i), 0.5 - u(i)),
             13 => C::new((i % 3) as f64 * 0.7 - 0.7, (i / 3) as f64 * 0.6 - 0.6),
             14 => C::new(0.5 * (i / 2) as f64 - 0.7, if i % 2 == 0 { 0.6 } else { -0.6 }),
-            _ => C::new(-1.5 + 3.0 * u(i), 0.05 * (i as f64 - 2.0)),
+            15 => C::new(-1.5 + 3.0 * u(i), 0.05 * (i as f64 - 2.0)),
+            _ => r(-1.5 + 3.0 * u(i)),
         })
         .collect();
     // admissible: inside the disc of radius 2, pairwise separation >= 0.2
@@ -136,6 +137,10 @@ pub struct InterpPt {
     /// data: 0..deg_bound = monomial of that degree; >= 100: fixed arbitrary vector number (data - 100)
     pub data: usize,
     pub tol: f64,
+    /// complex families only: leading coefficient of polynomial data / rotation of arbitrary data:
+    /// 0: 1 - 0.5i, 1: i (purely imaginary coefficients), 2: 1 (purely real coefficients)
+    #[serde(default)]
+    pub lead: u8,
 }
 pub struct Interp;
 fn run_lib(hermite_: bool, complex: bool, xs: &[C], ys: &[C], ds: &[C], tol: f64) -> Result<Result<(Vec<C>, usize), String>, String> {
@@ -164,7 +169,7 @@ impl Check for Interp {
         "interpolants"
     }
     fn rule(&self) -> String {
-        "lagrange and hermite x 16 node families (10 real in [-2,2], 6 complex in the disc; separation >= 0.2) x n = 1..=8 x data = every monomial within the degree bound and 6 fixed arbitrary vectors x zeroing tolerance; for each data set EVERY order of the nodes (n <= 6: all n!; n = 7, 8: all rotations and reversals); the reference interpolant is an independent dense solve of the (confluent) Vandermonde system; signature = (kind, family, n, data class)".into()
+        "lagrange and hermite x 17 node families (10 real in [-2,2], 6 complex in the disc, real nodes held in the complex type; separation >= 0.2; complex data general, purely imaginary and purely real) x n = 1..=8 x data = every monomial within the degree bound and 6 fixed arbitrary vectors x zeroing tolerance; for each data set EVERY order of the nodes (n <= 6: all n!; n = 7, 8: all rotations and reversals); the reference interpolant is an independent dense solve of the (confluent) Vandermonde system; signature = (kind, family, n, data class)".into()
     }
     fn axes(&self, t: Tier) -> Value {
         json!({"families": FAMILIES, "n": "1..=8", "tol": t.pick(vec![1e-14, 1e-6], vec![1e-14, 1e-10, 1e-6]), "all_orders_up_to_n": t.pick(5, 6)})
@@ -188,7 +193,12 @@ impl Check for Interp {
                             continue;
                         }
                         for &tol in &t.pick(vec![1e-14, 1e-6], vec![1e-14, 1e-10, 1e-6]) {
-                            v.push(InterpPt { hermite, fam, n, data, tol });
+                            for lead in 0..(if is_complex_family(fam) { 3 } else { 1 }) {
+                                if lead > 0 && t == Tier::Quick && (tol != 1e-6 || data >= 101) {
+                                    continue;
+                                }
+                                v.push(InterpPt { hermite, fam, n, data, tol, lead });
+                            }
                         }
                     }
                 }
@@ -204,7 +214,7 @@ impl Check for Interp {
         let m = if p.hermite { 2 * p.n } else { p.n };
         // data
         let (ys, ds, source): (Vec<C>, Vec<C>, Option<Vec<C>>) = if p.data < 100 {
-            let lead = if complex { C::new(1.0, -0.5) } else { C::new(1.0, 0.0) };
+            let lead = if !complex { C::new(1.0, 0.0) } else { [C::new(1.0, -0.5), C::new(0.0, 1.0), C::new(1.0, 0.0)][p.lead as usize] };
             let mut src = vec![C::new(0.0, 0.0); m];
             src[p.data] = lead;
             if p.data >= 2 {
@@ -213,7 +223,11 @@ impl Check for Interp {
             (xs.iter().map(|x| horner(&src, *x)).collect(), xs.iter().map(|x| horner_d(&src, *x)).collect(), Some(src))
         } else {
             let k = (p.data - 100) as u64;
-            let val = |i: usize, s: u64| if complex { C::new(fixed_noise(i as u64, 10 * k + s), fixed_noise(i as u64, 10 * k + s + 5)) } else { C::new(fixed_noise(i as u64, 10 * k + s), 0.0) };
+            let val = |i: usize, s: u64| match (complex, p.lead) {
+                (true, 0) => C::new(fixed_noise(i as u64, 10 * k + s), fixed_noise(i as u64, 10 * k + s + 5)),
+                (true, 1) => C::new(0.0, fixed_noise(i as u64, 10 * k + s)),
+                _ => C::new(fixed_noise(i as u64, 10 * k + s), 0.0),
+            };
             ((0..p.n).map(|i| val(i, 0) * 2.0).collect(), (0..p.n).map(|i| val(i, 1) * 3.0).collect(), None)
         };
         // reference interpolant: dense solve of the (confluent) Vandermonde system
@@ -323,7 +337,7 @@ impl Check for Interp {
                 }
             }
         }
-        o.sig = format!("{}|{}|n{}|{}|{}", if p.hermite { "hermite" } else { "lagrange" }, if complex { "complex" } else { "real" }, p.n, if p.data < 100 { "polynomial-data" } else { "arbitrary-data" }, if tier_all { "all-orders" } else { "rotations" });
+        o.sig = format!("{}|{}|n{}|{}|{}", if p.hermite { "hermite" } else { "lagrange" }, if complex { ["complex", "complex-imaginary-data", "complex-real-data"][p.lead as usize] } else { "real" }, p.n, if p.data < 100 { "polynomial-data" } else { "arbitrary-data" }, if tier_all { "all-orders" } else { "rotations" });
         o
     }
 }
